@@ -1074,7 +1074,7 @@ def witnesses():
 def main(tier, seed):
     t0 = time.time()
     proof = framework.proof_stage(PID, MODULE, THEOREMS, tier)
-    nshards, per = (16, 150) if tier == "quick" else (64, 2500)
+    nshards, per = (16, 500) if tier == "quick" else (64, 2500)
     run = framework.run_shards("c16", "run_shard", PID, seed, nshards, per, tier)
     run["findings"] = witnesses() + run["findings"]
 
